@@ -18,6 +18,7 @@ CONSTS = [
     "MAX_SAMPLE_SIZE", "XMP_MAX_PATTERNS_PROBE",
     "XMP_SMPCTL_SKIP", "LIBXMP_DEPACK_LIMIT_PROBE",
     # pattern decoding of the core loaders (Model/PatCodecs.v)
+    "MAX_SEQUENCES",
     "XMP_KEY_OFF", "XMP_KEY_CUT", "XMP_KEY_FADE",
     "FX_XF_PORTA", "FX_SURROUND", "FX_REVERSE", "FX_VOLSLIDE_2", "FX_EXTENDED", "FX_VIBRATO", "FX_SETPAN", "FX_PANSL_NOMEM",
     "FX_TONEPORTA", "FX_TONE_VSLIDE", "FX_VOLSLIDE", "FX_OFFSET", "FX_S3M_BPM", "FX_TREMOR", "FX_GLOBALVOL",
